@@ -109,6 +109,27 @@ func runC01(env *Env, rc *RunCtx) {
 		c.Conforming = true
 		rc.Count("probe_duplicates_below_intersection", 1)
 	}
+	// one case in twelve: relationships left over from a namespace that is no longer
+	// configured. They are written while "Gone" is still a (plain) namespace and
+	// hang off nodes of the case as dead ends - subject sets in Gone that hold
+	// nobody the case knows - then Gone is taken out of the configuration. Whether
+	// an engine follows or ignores them, the answer is the one without them.
+	var reduced *Config
+	if t := rc.CaseTape; t.Bool(1, 12) && len(c.Tuples) > 0 && c.Cfg.FindNS("Gone") == nil {
+		reduced = c.Cfg
+		full := *c.Cfg
+		full.NS = append(append([]*NSDef{}, c.Cfg.NS...), &NSDef{Name: "Gone"})
+		c.Cfg = &full
+		k := t.Range(1, 3)
+		for i := 0; i < k; i++ {
+			x := c.Tuples[t.Choose(len(c.Tuples))]
+			c.Tuples = append(c.Tuples, Tuple{NS: x.NS, Obj: x.Obj, Rel: x.Rel, Sub: Subject{Set: &SetRef{NS: "Gone", Obj: fmt.Sprintf("g%d", i), Rel: "m"}}})
+		}
+		if t.Bool(1, 2) {
+			c.Tuples = append(c.Tuples, Tuple{NS: "Gone", Obj: "g0", Rel: "m", Sub: Subject{ID: "nobody-of-this-case"}})
+		}
+		rc.Count("probe_relationships_of_a_removed_namespace", 1)
+	}
 	rc.Rec.CaseHash = fmt.Sprintf("%016x", c.Hash())
 	ref := RefCheck(c.Cfg, c.Tuples, c.Query)
 	if ref.NonStratified {
@@ -127,8 +148,16 @@ func runC01(env *Env, rc *RunCtx) {
 	if err != nil {
 		env.T.Fatalf("harness: %v", err)
 	}
+	if reduced != nil && class == "" {
+		if _, err := env.ApplyConfig(reduced); err != nil {
+			env.T.Fatalf("harness: reduced config: %v", err)
+		}
+	}
 	desc := func(extra map[string]any) map[string]any {
 		d := c.Describe()
+		if reduced != nil {
+			d["namespace_removed_after_writing"] = "Gone"
+		}
 		d["reference"] = map[string]any{"allowed": ref.Allowed, "reachable_nodes": ref.Reachable, "hops": ref.Hops, "rewrite_edges": ref.RewriteEdges}
 		for k, v := range extra {
 			d[k] = v
@@ -163,8 +192,18 @@ func runC01(env *Env, rc *RunCtx) {
 		}
 		// every pair of executions runs on another storage order of the same multiset
 		if ok := e / 2; ok != curOrder {
+			if reduced != nil {
+				if _, err := env.ApplyConfig(c.Cfg); err != nil {
+					env.T.Fatalf("harness: full config: %v", err)
+				}
+			}
 			if err := env.Reload(c.Tuples, Mix(c.OrderSeed, uint64(ok)), (c.Order+ok)%3); err != nil {
 				env.T.Fatalf("harness reload: %v", err)
+			}
+			if reduced != nil {
+				if _, err := env.ApplyConfig(reduced); err != nil {
+					env.T.Fatalf("harness: reduced config: %v", err)
+				}
 			}
 			curOrder = ok
 		}
